@@ -3,8 +3,10 @@ package props
 import (
 	"fmt"
 	"strconv"
+	"strings"
 
 	"verifsim/core"
+	gengen "verifsim/gen"
 	"verifsim/harness"
 	"verifsim/world"
 )
@@ -128,7 +130,6 @@ func decodeOracle(c *Ctx, prop string, e *harness.Entry, res *harness.Result, r 
 		if harness.AllocDelta > 64<<10 {
 			c.Inc("probe:alloc>64KiB")
 		}
-		c.D.U64(harness.AllocDelta >> 12)
 	}
 }
 
@@ -234,7 +235,7 @@ func decodeProp(prop string) *Prop {
 				}
 				return 200000
 			},
-			Run: func(c *Ctx) { decodeMixed(c, prop, false) },
+			Run: func(c *Ctx) { decodeMixed(c, prop, 0) },
 		},
 		{
 			Name: "random", Phase: 1, Weight: 2,
@@ -244,10 +245,79 @@ func decodeProp(prop string) *Prop {
 				}
 				return 100000
 			},
-			Run: func(c *Ctx) { decodeMixed(c, prop, true) },
+			Run: func(c *Ctx) { decodeMixed(c, prop, 1) },
+		},
+		{
+			Name: "gen", Phase: 1, Weight: 4,
+			N: func(tier string, seed uint64) uint64 {
+				if tier == "thorough" {
+					return 4000000
+				}
+				return 150000
+			},
+			Run: func(c *Ctx) { decodeMixed(c, prop, 2) },
+		},
+		{
+			// one size/count/length field of a generated file driven to a large or stalling value,
+			// decoded by the entry points of that container
+			Name: "sizefields", Phase: 1, Weight: 3,
+			N: func(tier string, seed uint64) uint64 {
+				if tier == "thorough" {
+					return 2000000
+				}
+				return 100000
+			},
+			Run: func(c *Ctx) { decodeMixed(c, prop, 3) },
 		},
 	}
 	return p
+}
+
+var entriesByContainer = map[string][]string{
+	"gen:TIFF":         {"Decode", "DecodeTiff", "exif2.Parse", "DecodeCR2", "tiff.ScanTiffHeader"},
+	"gen:JPEG":         {"Decode", "DecodeJPEG", "jpeg.ScanJPEG"},
+	"gen:JPEG+XMP":     {"Decode", "DecodeJPEG", "jpeg.ScanJPEG"},
+	"gen:PNG":          {"DecodePng", "png.ScanPngHeader"},
+	"gen:CR3":          {"Decode", "DecodeCR3", "PreviewCR3", "isobmff.Reader"},
+	"gen:CR3+XMP+PRVW": {"Decode", "DecodeCR3", "PreviewCR3", "isobmff.Reader"},
+	"gen:HEIF":         {"Decode", "DecodeHeif", "isobmff.Reader"},
+}
+
+var bigVals = []uint64{0xffffffff, 0x7fffffff, 0x80000000, 0x10000000, 0x01000000, 0x00100000, 0xffff, 0x8000, 0, 1, 2, 7, 8}
+
+// sizeFlip sets one size/count/length field of the layout map to a large or stalling value.
+func sizeFlip(l *core.Lane, data []byte, fmap []gengen.FieldSpan, desc func(string, ...interface{})) []byte {
+	out := append([]byte(nil), data...)
+	var cands []gengen.FieldSpan
+	for _, f := range fmap {
+		n := f.Name
+		if strings.Contains(n, "size") || strings.Contains(n, "count") || strings.Contains(n, "len") || strings.Contains(n, "valoff") || strings.Contains(n, "next") || strings.Contains(n, "firstifd") {
+			cands = append(cands, f)
+		}
+	}
+	if len(cands) == 0 {
+		return out
+	}
+	f := cands[l.Intn(len(cands))]
+	if f.Off < 0 || f.Off+f.Len > len(out) || f.Len > 8 {
+		return out
+	}
+	v := bigVals[l.Intn(len(bigVals))]
+	if l.Chance(1, 4) {
+		v = uint64(len(out)) + uint64(l.Intn(64))
+	}
+	le := l.Bool()
+	for j := 0; j < f.Len; j++ {
+		if le {
+			out[f.Off+j] = byte(v >> (8 * uint(j)))
+		} else {
+			out[f.Off+j] = byte(v >> (8 * uint(f.Len-1-j)))
+		}
+	}
+	if desc != nil {
+		desc("sizeflip field=%s off=%d len=%d value=%#x le=%v", f.Name, f.Off, f.Len, v, le)
+	}
+	return out
 }
 
 func init() {
@@ -275,7 +345,7 @@ func init() {
 
 	p = decodeProp("C14")
 	p.Level = "exploration"
-	p.Rule = "non-trivial = the library obtained at least one byte; distinct = distinct run digests (entry point, device counts, allocation size class in 4 KiB units, canonical result)"
+	p.Rule = "non-trivial = the library obtained at least one byte; distinct = distinct run digests (entry point, device counts, canonical result)"
 	p.QuickSec, p.ThoroughSec = 40, 400
 	p.Assumptions = []string{
 		"TotalAlloc is sampled by runtime.ReadMemStats immediately around the library call in a single-goroutine worker with GC off; the harness's canonicalisation is outside the window",
@@ -364,13 +434,38 @@ func drawEnv(c *Ctx, e *harness.Entry, prop string) *harness.Env {
 	return env
 }
 
-func decodeMixed(c *Ctx, prop string, random bool) {
+func decodeMixed(c *Ctx, prop string, class int) {
 	gen := c.L("gen")
 	var data []byte
 	var name string
 	var e *harness.Entry
 	hi := 0
-	if random {
+	random := class == 1
+	if class == 3 {
+		var fmap []gengen.FieldSpan
+		data, name, fmap = generatedInput(c, gen)
+		names := entriesByContainer[name]
+		if len(names) == 0 {
+			names = []string{"Decode"}
+		}
+		e = harness.EntryByName(names[gen.Intn(len(names))])
+		data = sizeFlip(gen, data, fmap, c.Descf)
+		name += "+sizeflip"
+		hi = len(data)
+	} else if class == 2 {
+		var fmap []gengen.FieldSpan
+		data, name, fmap = generatedInput(c, gen)
+		e = harness.Entries[gen.Intn(len(harness.Entries))]
+		switch gen.Intn(3) {
+		case 1:
+			data = structFlips(gen, data, fmap, c.Descf)
+			name += "+structflips"
+		case 2:
+			data = applyFlips(gen, data, len(data), c.Descf)
+			name += "+flips"
+		}
+		hi = len(data)
+	} else if random {
 		data, name = randomInput(gen)
 		e = harness.Entries[gen.Intn(len(harness.Entries))]
 		hi = len(data)
@@ -427,10 +522,10 @@ func decodeMixed(c *Ctx, prop string, random bool) {
 			c.Inc("fault:flip@t:fired")
 		}
 	}
-	if !random {
+	if class == 0 {
 		c.Inc("fault:flip:configured")
-		c.Inc("fault:flip:fired")
 	}
+	c.Inc(fmt.Sprintf("input-class:%d", class))
 	c.Inc("entry:" + e.Name)
 	c.NonTrivial = r.Delivered > 0
 	held := len(data)
